@@ -284,6 +284,16 @@ End OrderedField.
    normalised iterate b.  Needs a true square root (the R instance; in QcS ssqrt is the 2^-64
    floor root, so the iterate is only approximately normalised).  Tested only: the model
    MatOps2.spectral_radius_power is compared digit for digit with the implementation. *)
+(* proved part (any S): one sweep of the unscaled iteration forms b1 = A b0, accumulates
+   ||b1||^2 as sum_i |s_i s_i| and returns the estimate sum_i |s_i b0_i|, s = A b0 *)
+Theorem C08_power_iteration_partial (S : Scalar) (A : crs S) (b0 : vec S) :
+  pm_iter false A b0 =
+  (fold_left (fun a s => a + sabs (s * s)) (map (fun r => dotrow r b0) (rows A)) s0,
+   fold_left (fun a (p : nat * S) => a + sabs (snd p * vget b0 (fst p)))
+             (indexed (map (fun r => dotrow r b0) (rows A))) s0,
+   map (fun r => dotrow r b0) (rows A)).
+Proof. exact (pm_iter_unscaled A b0). Qed.
+Print Assumptions C08_power_iteration_partial.
 
 (* ================================================================== *)
 (* 4. pointwise_matrix: the block-maximum specification is REFUTED by the code as it is *)
@@ -305,6 +315,15 @@ Theorem C08_pointwise_refuted_pattern :
     map (map fst) (rows C) <> map (map fst) (rows (pointwise_spec A bs)).
 Proof. exact pointwise_refuted_pattern. Qed.
 Print Assumptions C08_pointwise_refuted_pattern.
+
+(* ... but it IS the block maximum on the sub-domain where the defect cannot trigger: every
+   block row stores entries in at most one block column (e.g. block-diagonal matrices) *)
+Theorem C08_pointwise_single_block_column (S : Scalar) (A : crs S) bs :
+  bs <> 0%nat -> (nrows A / bs * bs)%nat = nrows A ->
+  Forall (PwPos.single_or_empty bs (ncols A / bs)%nat) (groups (nrows A / bs)%nat bs (rows A)) ->
+  pointwise_matrix A bs = Some (pointwise_spec A bs).
+Proof. exact (PwPos.pointwise_matrix_single_column A bs). Qed.
+Print Assumptions C08_pointwise_single_block_column.
 
 (* the witnesses, as run: [1 1] with bs = 1; rows (0:1)(2:1) | (4:1) with bs = 2;
    1D Poisson (x) I_2 with bs = 2 (the case pointwise aggregation uses): off-diagonal 0 *)
